@@ -192,6 +192,7 @@ def _gen_cfg(rng, tier, fragile=None, big=False):
         # more grid points than one integration block (10000), with lengths that are NOT multiples of the block count (a
         # seeded "balanced blocks" helper dropped the last ngrid % nblocks points) and one that is
         npts[int(rng.integers(nsys))] = int(_pick(rng, [10001, 10007, 12345, 20003, 20000]))
+    ddir_order = _pick(rng, ["canonical", "sorted", "reversed"], [0.4, 0.3, 0.3])
     spinpat = _pick(rng, ["1", "2", "mixed"], [0.3, 0.35, 0.35])
     nspins = [1 if spinpat == "1" else 2 if spinpat == "2" else int(rng.integers(1, 3)) for _ in range(nsys)]
     orbs = []
@@ -199,7 +200,7 @@ def _gen_cfg(rng, tier, fragile=None, big=False):
         orbs = [["O", 0], ["U", 0]] + ([["O", 1]] if rng.random() < 0.5 else [])
     return {"gp": gp, "slmode": slmode, "nldf": nldf, "sdmx": sdmx,
             "norm": _pick(rng, ["reasonable", "none"], [0.7, 0.3]), "layout": layout, "kernels": kernels,
-            "reduce": bool(rng.random() < 0.6), "nsys": nsys, "npts": npts, "nspins": nspins, "deriv": deriv,
+            "reduce": bool(rng.random() < 0.6), "nsys": nsys, "npts": npts, "nspins": nspins, "deriv": deriv, "ddir_order": ddir_order,
             "orbs": orbs, "low_frac": float(_pick(rng, [0.0, 0.05, 0.15])),
             "default_noise": float(_pick(rng, [0.03, 0.01, 0.1])), "fragile": fragile,
             "get_orb_deriv": _pick(rng, [None, None, True]) if deriv else _pick(rng, [None, False])}
@@ -418,6 +419,13 @@ def _write(ds, cfg, tmp):
     for k, v in ddir.items():
         if v is not None:
             os.makedirs(v, exist_ok=True)
+    if cfg.get("ddir_order") == "sorted":
+        # the mapping of data directories is semantically unordered: alphabetical key order (as from a JSON/YAML file written
+        # with sort_keys) must give the same stored integrals - added after a seeded loader that concatenated the feature
+        # families in dict order
+        ddir = {k: ddir[k] for k in sorted(ddir)}
+    elif cfg.get("ddir_order") == "reversed":
+        ddir = {k: ddir[k] for k in reversed(list(ddir))}
     for mol, sd in ds.items():
         nspin = sd["nspin"]
         ref = {"wt": sd["wt"], "nspin": nspin, "val": sd["val"], "e_tot_orig": sd["e_tot_orig"],
